@@ -113,3 +113,32 @@ func VerifC17_InfluxBatches() {
 	verifAssert(uint64(calls) == (uint64(k)+batch-1)/batch, "influxdb: the open batch is emitted at the limit and at the end, never empty")
 	verifReach("batched")
 }
+
+// VerifC17_InfluxTags: formatNameTags renders name,key=value with the value taken after the FIRST
+// colon of a key:value tag (the value may contain further colons) and valueless tags under "unnamed".
+func VerifC17_InfluxTags() {
+	key := verifASCII(1)
+	verifAssume((key[0] >= 'a' && key[0] <= 'z') || (key[0] >= '0' && key[0] <= '9'))
+	val := verifASCII(2)
+	plain := verifASCII(1)
+	verifAssume(plain[0] != ':')
+	var tags gostatsd.Tags
+	var want strings.Builder
+	escapeNameToBuilder(&want, "m")
+	named := nondetBool()
+	if named {
+		tags = gostatsd.Tags{key + ":" + val}
+		want.WriteByte(',')
+		escapeTagToBuilder(&want, key)
+		want.WriteByte('=')
+		escapeTagToBuilder(&want, val)
+	} else {
+		tags = gostatsd.Tags{plain}
+		want.WriteString(",unnamed=")
+		escapeTagToBuilder(&want, plain)
+	}
+	want.WriteByte(' ')
+	got := formatNameTags("m", tags)
+	verifAssert(got == want.String(), "influxdb: a tag is rendered as key=value with the value after the first colon (or unnamed=value)")
+	verifReach("tags")
+}
